@@ -1192,6 +1192,34 @@ package anytype
 //@   ensures  range: -1 <= result && result <= len(s) - len(substr)
 //@   ensures  found: result >= 0 && len(substr) == 1 ==> s[result] == substr[0]
 //@   ensures  first: len(substr) == 1 ==> (forall k int :: 0 <= k && k < len(s) && (result < 0 || k < result) ==> s[k] != substr[0])
+//@   ensures  dot: substr == "." ==> (result >= 0) == hasDot(s)
+
+// equivalent spellings a refactoring may switch to (same assumed semantics as strings.Index on a one-byte needle)
+//@ extern strings.IndexByte pure
+//@   assigns  nothing
+//@   panics_iff false
+//@   ensures  range: -1 <= result && result <= len(s) - 1
+//@   ensures  found: result >= 0 ==> s[result] == c
+//@   ensures  first: forall k int :: 0 <= k && k < len(s) && (result < 0 || k < result) ==> s[k] != c
+//@   ensures  dot: c == '.' ==> (result >= 0) == hasDot(s)
+
+//@ extern strings.IndexRune pure
+//@   assigns  nothing
+//@   panics_iff false
+//@   ensures  range: -1 <= result && result <= len(s) - 1
+//@   ensures  found: result >= 0 && 0 <= r && r < 128 ==> s[result] == r
+//@   ensures  first: 0 <= r && r < 128 ==> (forall k int :: 0 <= k && k < len(s) && (result < 0 || k < result) ==> s[k] != r)
+//@   ensures  dot: r == '.' ==> (result >= 0) == hasDot(s)
+
+//@ extern strings.ContainsRune pure
+//@   assigns  nothing
+//@   panics_iff false
+//@   ensures  r == '.' ==> result == hasDot(s)
+
+//@ extern strings.HasPrefix pure
+//@   assigns  nothing
+//@   panics_iff false
+//@   ensures  result == (len(s) >= len(prefix) && (forall k int :: 0 <= k && k < len(prefix) ==> s[k] == prefix[k]))
 
 //@ extern strings.Count pure
 //@   assigns  nothing
